@@ -27,6 +27,7 @@ type eoObs struct {
 	Reply   any      `json:"reply"`
 	Numbers []uint64 `json:"numbers"`
 	Closed  []int    `json:"closed"`
+	Served  []int    `json:"served"` // object ids serving the epochs of Numbers (0 = an object the sequence did not create)
 }
 
 func TestVerifEpochOps(t *testing.T) {
@@ -46,7 +47,7 @@ func TestVerifEpochOps(t *testing.T) {
 		path := func(f any) string { return filepath.Join(dir, fmt.Sprint(f)+".yml") }
 		num := func(v any) int { return int(v.(float64)) }
 		if ci > 0 {
-			out.Emit(eoObs{Op: "reset", Args: []any{}, Reply: "ok", Numbers: []uint64{}, Closed: []int{}})
+			out.Emit(eoObs{Op: "reset", Args: []any{}, Reply: "ok", Numbers: []uint64{}, Closed: []int{}, Served: []int{}})
 		}
 		for _, op := range c.Ops {
 			var reply any = "ok"
@@ -77,7 +78,15 @@ func TestVerifEpochOps(t *testing.T) {
 						}
 						id := len(objs) + 1
 						ep := &Epoch{epoch: *cfg.Epoch, config: cfg}
-						ep.onClose = append(ep.onClose, func() error { closed[id] = true; return nil })
+						ep.onClose = append(ep.onClose, func() error {
+							closed[id] = true
+							if id%3 == 0 {
+								// every third object reports an error from its close hook (an I/O error on close, a double close):
+								// the epoch set has to end up in the same state
+								return fmt.Errorf("close of epoch object %d: input/output error", id)
+							}
+							return nil
+						})
 						objs = append(objs, ep)
 						reply = id
 					case "add":
@@ -111,7 +120,7 @@ func TestVerifEpochOps(t *testing.T) {
 			case <-finished:
 			case <-time.After(5 * time.Second):
 				// the operation never returned (it still holds or waits for the epoch-set lock): nothing more can be executed
-				out.Emit(eoObs{Op: op.Op, Args: op.Args, Reply: "hang", Numbers: []uint64{}, Closed: []int{}})
+				out.Emit(eoObs{Op: op.Op, Args: op.Args, Reply: "hang", Numbers: []uint64{}, Closed: []int{}, Served: []int{}})
 				return
 			}
 			if pm != "" {
@@ -128,6 +137,17 @@ func TestVerifEpochOps(t *testing.T) {
 				o.Closed = append(o.Closed, id)
 			}
 			sort.Ints(o.Closed)
+			o.Served = []int{}
+			for _, n := range o.Numbers {
+				got, _ := multi.GetEpoch(n)
+				id := 0
+				for k, x := range objs {
+					if x == got {
+						id = k + 1
+					}
+				}
+				o.Served = append(o.Served, id)
+			}
 			// cross-check the edge queries against the numbers (most recent = first, oldest = last)
 			if n, err := multi.GetMostRecentAvailableEpochNumber(); (err == nil) != (len(o.Numbers) > 0) || (err == nil && n != o.Numbers[0]) {
 				o.Reply = fmt.Sprintf("mostRecent=%d err=%v", n, err)
